@@ -7,11 +7,11 @@ package common
 // custodian update validation step, reached directly.  Decisions only.
 
 const (
-	VerifCustodianNodeExtraSize     = custodianNodeExtraSize
-	VerifCustodianNodeActionUpdate  = custodianNodeActionUpdate
-	VerifCustodianNodesMinimumCount = custodianNodesMinimumCount
-	VerifCustodianNodeNewPrice      = custodianNodeNewPrice
-	VerifCustodianNodeUpdatePrice   = custodianNodeUpdatePrice
+	VerifC34CustodianNodeExtraSize     = custodianNodeExtraSize
+	VerifC34CustodianNodeActionUpdate  = custodianNodeActionUpdate
+	VerifC34CustodianNodesMinimumCount = custodianNodesMinimumCount
+	VerifC34CustodianNodeNewPrice      = custodianNodeNewPrice
+	VerifC34CustodianNodeUpdatePrice   = custodianNodeUpdatePrice
 )
 
 func VerifC34ParseCustodianNode(extra []byte, genesis bool) (*CustodianNode, error) {
